@@ -143,14 +143,94 @@ def same(a, b):
     fa, fb = flatten(a), flatten(b)
     return len(fa) == len(fb) and all(x.dtype == y.dtype and x.shape == y.shape and torch.equal(x, y) for x, y in zip(fa, fb))
 
+XT_MODES = ['symmetric', 'periodization', 'zero', 'reflect', 'periodic']
 def oracle_cases(tier, rng):
     for i in range(40 if tier == 'quick' else 300):
         yield dict(kind='history', seed=int(rng.integers(1 << 30)), nops=10)
+    # cross-talk between transforms that share size, channels, dtype and mode (what a cache keyed too coarsely confuses)
+    for S in ((32,) if tier == 'quick' else (32, 48)):
+        for mode in XT_MODES:
+            for rep in range(1 if tier == 'quick' else 2):
+                yield dict(kind='crosstalk', S=S, mode=mode, seed=int(rng.integers(1 << 30)))
     for i in range(6 if tier == 'quick' else 40):
         yield dict(kind='threads', seed=int(rng.integers(1 << 30)), nthreads=int(rng.choice([4, 8, 16])))
 
 def strat_key(cfg):
+    if cfg['kind'] == 'crosstalk': return 'crosstalk/%d/%s' % (cfg['S'], cfg['mode'])
     return cfg['kind'] + '/' + str(cfg['seed'] % 7)
+
+
+def fresh_import():
+    """forget the library's modules: the next import builds every module-level object (caches, tables, ...) anew - the state of a new process"""
+    import importlib
+    for k in [k for k in sys.modules if k == 'pytorch_wavelets' or k.startswith('pytorch_wavelets.')]:
+        del sys.modules[k]
+    importlib.invalidate_caches()
+
+XT_WAVES = ['haar', 'db2', 'db3', 'db4', 'sym4', 'coif1', 'bior1.3', 'rbio1.3']
+def xt_pool(S, mode):
+    """(label, builder(module namespace) -> module, argument builder(generator) -> args): same size, 2 channels, float64, one mode"""
+    pool = []
+    for w in XT_WAVES:
+        pool.append(('DWTForward(J=2,%s,%s)' % (w, mode), lambda w=w: __import__('pytorch_wavelets').DWTForward(J=2, wave=w, mode=mode).double(), 'img'))
+        pool.append(('DWT1DForward(J=2,%s,%s)' % (w, mode), lambda w=w: __import__('pytorch_wavelets').DWT1DForward(J=2, wave=w, mode=mode).double(), 'sig'))
+        pool.append(('DWTInverse(%s,%s)' % (w, mode), lambda w=w: __import__('pytorch_wavelets').DWTInverse(wave=w, mode=mode).double(), ('pyr2', w)))
+        pool.append(('DWT1DInverse(%s,%s)' % (w, mode), lambda w=w: __import__('pytorch_wavelets').DWT1DInverse(wave=w, mode=mode).double(), ('pyr1', w)))
+    if mode != 'periodic':
+        for w in XT_WAVES[:4]:
+            def mk(w=w):
+                from pytorch_wavelets.dwt.transform2d import SWTForward
+                return SWTForward(J=4, wave=w, mode=mode).double()
+            pool.append(('SWTForward(J=4,%s,%s)' % (w, mode), mk, 'img'))
+    return pool
+
+def xt_args(spec, S, mode, g):
+    import pywt
+    rnd = lambda shape: torch.randn(shape, generator=g, dtype=torch.float64)
+    if spec == 'img': return rnd((1, 2, S, S))
+    if spec == 'sig': return rnd((1, 2, S))
+    kind, w = spec
+    pm = 'periodization' if mode == 'periodization' else mode
+    n1 = pywt.dwt_coeff_len(S, pywt.Wavelet(w).dec_len, pm)
+    if kind == 'pyr1': return (rnd((1, 2, n1)), [rnd((1, 2, n1))])
+    return (rnd((1, 2, n1, n1)), [rnd((1, 2, 3, n1, n1))])
+
+def xt_call(m, args):
+    try:
+        with torch.no_grad():
+            return [t.clone() for t in flatten(m(args))]
+    except (RuntimeError, ValueError, AssertionError) as e:
+        return ('raised', type(e).__name__)
+
+def crosstalk_run(cfg):
+    r = np.random.default_rng(cfg['seed'])
+    S, mode = cfg['S'], cfg['mode']
+    pool = xt_pool(S, mode)
+    g = torch.Generator().manual_seed(cfg['seed'] % (2 ** 31))
+    args = [xt_args(spec, S, mode, g) for (_, _, spec) in pool]
+    try:
+        refs = []
+        for (lab, mk, spec), a in zip(pool, args):
+            fresh_import(); refs.append(xt_call(mk(), clone_args(a)))
+        order = [int(i) for i in r.permutation(len(pool))]
+        fresh_import()
+        outs = {}
+        for i in order:
+            outs[i] = xt_call(pool[i][1](), clone_args(args[i]))
+        bad = [i for i in order if not same(outs[i], refs[i])]
+        if not bad:
+            return None
+        i = bad[0]
+        # which single earlier call is enough?
+        for j in order[:order.index(i)]:
+            fresh_import()
+            xt_call(pool[j][1](), clone_args(args[j]))
+            if not same(xt_call(pool[i][1](), clone_args(args[i])), refs[i]):
+                return dict(detail='%s on a %dx%d input gives a different result after %s was called in the same process than in a fresh process' % (pool[i][0], S, S, pool[j][0]))
+        return dict(detail='%s on a %dx%d input gives a different result after the calls %s in the same process than in a fresh process' % (
+            pool[i][0], S, S, [pool[j][0] for j in order[:order.index(i)]]))
+    finally:
+        fresh_import()
 
 def call(m, kind, args, dt, grad):
     """result tensors, or ('raised', exception type) - an exception is an outcome like any other and must be reproducible"""
@@ -173,6 +253,8 @@ def oracle_run(cfg):
     r = np.random.default_rng(cfg['seed'])
     old = torch.get_default_dtype()
     try:
+        if cfg['kind'] == 'crosstalk':
+            return crosstalk_run(cfg)
         if cfg['kind'] == 'history':
             mods, log = [], []
             for step in range(cfg['nops']):
